@@ -46,7 +46,10 @@ Inductive iobs :=
 Record case := mkCase { cs_init : cstate; cs_events : list event; cs_obs : list iobs; cs_hashdiff : list Z;
   (* export of the final state imported into a fresh application: result class, module state there,
      and whether both modules export the same genesis again *)
-  cs_reimport : option (tclass * option snap * bool) }.
+  cs_reimport : option (tclass * option snap * bool);
+  (* events at which tenant 1's view (its tenant record, pending records, treasury balances, events and the
+     results of its transactions) differs between this run and the run without the other tenants *)
+  cs_isodiff : list Z }.
 
 Definition zz_eqb (a b : Z * Z) : bool := (fst a =? fst b) && (snd a =? snd b).
 Definition zb_eqb (a b : Z * bytes) : bool := (fst a =? fst b) && bytes_eqb (snd a) (snd b).
